@@ -101,10 +101,15 @@ LABEL = re.compile(r" ~(\S+)$")
 PW_OFF = re.compile(r"pwrite\(([^,]+),\d+,")
 
 
-def canon(line, kind):
+UNOWNED = re.compile(r" ?\b(?:close|pwrite|flock)\(![^)]*\)=\w+")
+
+
+def canon(line, kind, ignore_unowned=False):
     line = line.rstrip()
     if kind != "raw":
         line = PW_OFF.sub(r"pwrite(\1,*,", line)   # TIFF offsets are property C15's subject
+    if ignore_unowned:
+        line = UNOWNED.sub("", line).replace("|  |", "| |").replace("| |", "|  |")
     return line
 
 
@@ -120,7 +125,7 @@ def split_cases(lines):
     return cases
 
 
-def run_batch(exe, drv, cases, stats, timeout=600):
+def run_batch(exe, drv, cases, stats, timeout=600, ignore_unowned=False):
     """Runs the cases through the real code and the model.  Returns a list of problems
     (case_index, kind, detail) with kind in {'oracle','crash','timeout','diff','model-crash'}."""
     script = "\n".join("\n".join(c.lines()) for c in cases) + "\n"
@@ -145,7 +150,7 @@ def run_batch(exe, drv, cases, stats, timeout=600):
             elif ln.startswith("CRASH") or ln.startswith("TIMEOUT"):
                 crashed = ln
             else:
-                ops_i.append(canon(ln, c.kind))
+                ops_i.append(canon(ln, c.kind, ignore_unowned))
         ops_m, labels = [], []
         for ln in ml:
             m = LABEL.search(ln)
@@ -182,10 +187,13 @@ def oracle_kind(msg):
     return p[1] if len(p) > 1 else msg
 
 
+IGNORE_UNOWNED = [False]   # C14 sets this: calls on descriptors the device does not own are C16's subject
+
+
 def single_problem(exe, drv, case, want):
     """does `case` alone still show a problem for which want(kind, detail) is true?"""
     st = new_stats()
-    for _, k, det in run_batch(exe, drv, [case], st, timeout=60):
+    for _, k, det in run_batch(exe, drv, [case], st, timeout=60, ignore_unowned=IGNORE_UNOWNED[0]):
         if want(k, det):
             return True
     return False
